@@ -132,6 +132,7 @@ func buildEvidence(prop, tier string, seed int, c *CheckCfg, tc TierCfg, results
 	cov["engine_mismatch"] = mismatch
 	cov["known_findings_matched"] = knownMatched
 	cov["per_harness"] = perH
+	cov["cross_solver"] = crossSolverResults
 	cov["outside_the_claim"] = c.Outside
 	cov["notes"] = append(append([]string{}, notes...), ovNotes...)
 	cov["append_growth_model"] = vexec.SizeClassSource
